@@ -1,4 +1,5 @@
 import Texel.Proofs.Chain
+import Texel.Proofs.GenHits
 import Texel.Proofs.Vertices
 import Texel.Proofs.SplitInv
 import Texel.Proofs.HitCount
